@@ -32,7 +32,9 @@ def main(argv):
         nshards = rp["case"]["nshards"]
         if hasattr(mod, "prepare"):
             env_extra = dict(env_extra or {}, **(mod.prepare(tier) or {}))
-        m, notes = runner.run_shards(prop, tier, seed, nshards, meta.get("watchdog_s", 3600),
+        wd = meta.get("watchdog_s", 3600)
+        wd = wd.get(tier, 3600) if isinstance(wd, dict) else wd
+        m, notes = runner.run_shards(prop, tier, seed, nshards, wd,
                                      only=(rp["case"]["shard"], rp["case"]["index"]), env_extra=env_extra,
                                      pyflags=pyflags)
         return runner.conclude(prop, tier, seed, meta, m, notes, t0, replay_mode=True)
